@@ -174,6 +174,31 @@ void explore19(Options const& o, std::vector<Shim*> const& shims, std::vector<Sh
         rec.add_states(1ull << 21, 1ull << 21, 1ull << 21);
         }
       }
+    // (b3) two-call histories: the value for B must not depend on the angle A of the previous call (hidden state, e.g. a memo of the last reduction)
+    if( !probes.empty() )
+      {
+      std::vector<int32_t> H;
+      for( i64 x : S_set(4,2,true,true) ) H.push_back(static_cast<int32_t>(static_cast<uint32_t>(static_cast<u64>(x))));
+      for( int d = -400; d <= 800; d += 7 ) H.push_back(d);
+      for( int32_t base : { 65536, -65536, 1 << 24, -(1 << 24) } ) for( int d = -370; d <= 370; d += 37 ) H.push_back(base + d);
+      std::sort(H.begin(), H.end()); H.erase(std::unique(H.begin(), H.end()), H.end());
+      // only angles whose index is in bounds are called
+      std::vector<int32_t> Hs; for( int32_t d : H ) { bool inb = true; for( Probe* p : probes ) for( int cz = 0; cz < 2; ++cz ) { i64 idx = p->fm_angle_index(cz, d); if( idx < 0 || idx > 360 ) inb = false; } if( inb ) Hs.push_back(d); }
+      int c_hist = rec.cls("C19.angle_aprox_depends_on_previous_call");
+      for( int cosine = 0; cosine < 2; ++cosine )
+        {   // sequential on purpose: the history is per thread
+        LocalViol lv(rec);
+        for( size_t ia = 0; ia < Hs.size(); ++ia ) for( size_t ib = 0; ib < Hs.size(); ++ib )
+          {
+          s->fm_angle_aprox(cosine, Hs[ia]);
+          i64 g = s->fm_angle_aprox(cosine, Hs[ib]);
+          Interval iv = c.deg[cosine][residue360(Hs[ib])];
+          if( g < iv.lo || g > iv.hi ) { int32_t A = Hs[ia], B = Hs[ib]; lv.hit(c_hist, ob | (9ull << 52) | (static_cast<u64>(cosine) << 48) | (ia * Hs.size() + ib), [=]{ return ex1(s, cosine ? "cos_angle_aprox(A); cos_angle_aprox(B)" : "sin_angle_aprox(A); sin_angle_aprox(B)", "two consecutive calls", {{"A",to_s(A)},{"B",to_s(B)}}, "second result in [" + to_s(iv.lo) + "," + to_s(iv.hi) + "]", to_s(g), "hist", {to_s(cosine), to_s(A), to_s(B)}); }); }
+          }
+        u64 n = static_cast<u64>(Hs.size()) * Hs.size(); rec.add_states(n, 2 * n, n);
+        }
+      rec.count("two_call_history_angles", Hs.size());
+      }
     // (c) sqrt_aprox
     {
     bool big = ci == 1 || ci == 6 % shims.size();
@@ -220,6 +245,9 @@ void replay19(Options const& o, Shim* s, Recorder& rec)
     return; }
   if( o.rcase == "entry" ) { int w = static_cast<int>(parse_i64(o.rin.at(0))); unsigned i = static_cast<unsigned>(parse_i64(o.rin.at(1))); Interval iv = C19::entry_interval(w, i); i64 g = s->fm_table(w, i);
     if( g < iv.lo || g > iv.hi ) rec.viol(c.c_entry, 0, [&]{ return ex1(s, "table entry", "", {{"table",to_s(w)},{"index",to_s(i)}}, "in [" + to_s(iv.lo) + "," + to_s(iv.hi) + "]", to_s(g), o.rcase, o.rin); }); }
+  else if( o.rcase == "hist" ) { int cosine = static_cast<int>(parse_i64(o.rin.at(0))); int32_t A = static_cast<int32_t>(parse_i64(o.rin.at(1))), B = static_cast<int32_t>(parse_i64(o.rin.at(2)));
+    s->fm_angle_aprox(cosine, A); i64 g = s->fm_angle_aprox(cosine, B); Interval iv = c.deg[cosine][residue360(B)];
+    if( g < iv.lo || g > iv.hi ) rec.viol(rec.cls("C19.angle_aprox_depends_on_previous_call"), 0, [&]{ return ex1(s, "two consecutive calls", "", {{"A",to_s(A)},{"B",to_s(B)}}, "[" + to_s(iv.lo) + "," + to_s(iv.hi) + "]", to_s(g), o.rcase, o.rin); }); }
   else if( o.rcase == "angle" ) { int cosine = static_cast<int>(parse_i64(o.rin.at(0))); int32_t a = static_cast<int32_t>(parse_i64(o.rin.at(1))); c.angle_value(s, cosine, a, s->fm_angle_aprox(cosine, a), 0, d); }
   else if( o.rcase == "sqrt" ) { i64 x = parse_i64(o.rin.at(0)); c.sqrt_aprox(s, x, s->fm_un(U_SQRT_APROX, x), 0, d); }
   else if( o.rcase == "atani" ) { i64 x = parse_i64(o.rin.at(0)); c.atan_index(s, x, s->fm_un(U_ATAN_INDEX_APROX, x), 0, d); }
